@@ -20,6 +20,10 @@ H = Harness("C10", ["OQ.Base.CaseEq", "OQ.Stats.Measure", "OQ.Stats.MeasureCases
             "(get_expectation_value_from_frequencies on arbitrary count dictionaries), counts (get_counts and "
             "from_counts round trips), from_counts/add_counts (arbitrary dictionaries incl. zero counts), distribution, "
             "parities (get_parities_from_measurements values and pair tallies, valid and invalid), check_parity; "
+            "history (about 7 percent: one Measurements object taken through 2-4 steps - bitstrings replaced by as many "
+            "other shots, one shot edited in place, shots appended, add_counts - and after every step distribution, "
+            "expectation values with both covariance estimators and counts queried on that same object and compared with "
+            "the model on the shots it then holds; '-samecount' = some step kept the number of shots); "
             "'-wide' = registers of 65-90 qubits with few shots whose distinct bitstrings differ only on qubits >= 64 and "
             "operators on those qubits (about 6 percent of the stream, for expval / counts / distribution / parities / efreq); "
             "non-trivial = at least two distinct bitstrings among at least two shots (and at least two terms where an "
@@ -97,6 +101,36 @@ def gen_wide(rng):
         return dict(kind="efreq", freq=[[k, c] for k, c in freq.items()], marked=sorted(q for q, _ in op[0][1]),
                     as_set=True, wide=True)
     return dict(kind=kind, shots=shots, wide=True)
+
+def gen_history(rng):
+    """A Measurements object that is queried, changed, queried again (2-4 changes)."""
+    w = rng.randint(1, 5)
+    n = rng.choice([1, 2, 4, 4, 8, 8, 16, 32, 3, 6, 11])
+    shots = gen_shots(rng, w, n)
+    cur_n = n
+    steps = []
+    for _ in range(rng.randint(2, 4)):
+        r = rng.random()
+        if r < 0.35:
+            new = gen_shots(rng, w, cur_n)
+            steps.append(dict(act="replace", shots=new))
+        elif r < 0.65:
+            steps.append(dict(act="edit", i=rng.randrange(cur_n), shot=format(rng.randrange(2 ** w), f"0{w}b")))
+        elif r < 0.8:
+            more = gen_shots(rng, w, rng.choice([1, 2, cur_n]))
+            steps.append(dict(act="append", shots=more))
+            cur_n += len(more)
+        elif r < 0.92:
+            keys = rng.sample(range(2 ** w), rng.randint(1, min(2 ** w, 3)))
+            d = [[format(kk, f"0{w}b"), rng.choice([1, 1, 2, 3])] for kk in keys]
+            steps.append(dict(act="add_counts", d=d))
+            cur_n += sum(c for _, c in d)
+        else:
+            steps.append(dict(act="query"))
+    op = gen_op(rng, w, 3)
+    if not op:
+        op = [[[3, 4], [[0, "Z"]]]]
+    return dict(kind="history", shots=shots, steps=steps, op=op)
 
 def gen_n(rng):
     return rng.choice([1, 2, 4, 8, 16, 32, 64, 128, 256]) if rng.random() < 0.6 else rng.randint(1, 200)
@@ -179,6 +213,12 @@ FIXED = [
     dict(kind="counts", shots=["1" * 65, "1" * 64 + "0", "1" * 65], wide=True),
     dict(kind="distribution", shots=["01" * 40, "01" * 39 + "11", "01" * 40, "01" * 39 + "00"], wide=True),
     dict(kind="parities", shots=["0" * 66, "0" * 65 + "1", "0" * 64 + "10"], op=[[[1, 1], Z(64)], [[1, 1], Z(65)], [[2, 1], Z(0, 65)]], why=None, wide=True),
+    # one object queried, changed without changing the number of shots, queried again
+    dict(kind="history", shots=["00", "00", "01", "00"], op=[[[1, 1], Z(0)], [[1, 2], Z(0, 1)], [[-3, 4], Z(1)]],
+         steps=[dict(act="replace", shots=["11", "10", "11", "11"]), dict(act="edit", i=1, shot="01"),
+                dict(act="append", shots=["10", "10", "00", "01"]), dict(act="add_counts", d=[["11", 2], ["00", 1]])]),
+    dict(kind="history", shots=["101", "001"], op=[[[5, 2], Z(2)], [[1, 4], []]],
+         steps=[dict(act="edit", i=0, shot="100"), dict(act="query"), dict(act="replace", shots=["111", "110"])]),
     dict(kind="efreq", freq=[], marked=[], as_set=True),
     dict(kind="efreq", freq=[["", 3]], marked=[], as_set=True),
     dict(kind="efreq", freq=[["01", 3], ["11", 1]], marked=[], as_set=False),
@@ -196,6 +236,9 @@ def gen(rng, tier):
     for _ in range(n):
         if rng.random() < 0.06:
             yield gen_wide(rng)
+            continue
+        if rng.random() < 0.07:
+            yield gen_history(rng)
             continue
         r = rng.random()
         if r < 0.40:
@@ -271,7 +314,7 @@ def valid_for_expval(shots, op):
 
 # ----------------------------------------------------------------------------- cases
 
-def run_expval(inp):
+def run_expval(inp, held=None):
     shots, op, bessel = inp["shots"], inp["op"], inp["bessel"]
     sh = [tup(s) for s in shots]
     n, m = len(sh), len(op)
@@ -279,7 +322,8 @@ def run_expval(inp):
     tol = Fraction(0) if exact else TOL
     with warnings.catch_warnings():
         warnings.simplefilter("ignore")
-        st, out = outcome(lambda: Measurements(list(sh)).get_expectation_values(mk_op(op, inp.get("as_term")), bessel), timeout=20)
+        obj = held if held is not None else Measurements(list(sh))
+        st, out = outcome(lambda: obj.get_expectation_values(mk_op(op, inp.get("as_term")), bessel), timeout=20)
     valid, must = valid_for_expval(shots, op)
     kind = "expval"
     nontrivial = n >= 2 and len(set(sh)) >= 2 and m >= 2
@@ -363,10 +407,11 @@ def run_efreq(inp):
     chk = f"efreq_eqb {cq(tol)} {clist(marked, cnat)} {ccounts(freq)} {lit}" if lit else "false"
     return dict(chk=chk, oracle_ok=ok, oracle_msg=msg, kind="efreq" + ("" if st == "ok" else "-err"), nontrivial=len(freq) >= 2 and len(marked) >= 1)
 
-def run_counts(inp):
+def run_counts(inp, m=None):
     shots = inp["shots"]
     sh = [tup(s) for s in shots]
-    st, out = outcome(lambda: Measurements(list(sh)).get_counts())
+    obj = m if m is not None else Measurements(list(sh))
+    st, out = outcome(lambda: obj.get_counts())
     if st != "ok":
         return dict(chk="false", oracle_ok=False, oracle_msg=f"get_counts raised {out}", kind="counts")
     items = list(out.items())
@@ -403,12 +448,13 @@ def run_from_counts(inp):
            f"add_counts_eqb {cshots(shots)} {ccounts(d)} {cshots([key(t) for t in added])}")
     return dict(chk=chk, oracle_ok=not msgs, oracle_msg="; ".join(msgs), kind="from_counts", nontrivial=len(pos) >= 2)
 
-def run_distribution(inp):
+def run_distribution(inp, m=None):
     shots = inp["shots"]
     sh = [tup(s) for s in shots]
     n = len(sh)
     tol = Fraction(0) if pow2(n) else TOL
-    st, out = outcome(lambda: Measurements(list(sh)).get_distribution().distribution_dict)
+    obj = m if m is not None else Measurements(list(sh))
+    st, out = outcome(lambda: obj.get_distribution().distribution_dict)
     ok, msg = True, ""
     if st == "ok":
         items = [(key(k), float(p)) for k, p in out.items()]
@@ -478,12 +524,52 @@ def run_check_parity(inp):
     return dict(chk=chk, oracle_ok=ok, oracle_msg="" if ok else f"check_parity({rows[0]}, {marked}) = {out}; vector {vec}",
                 kind="check_parity", nontrivial=len(marked) >= 2 and len(set(rows)) >= 2)
 
+def run_history(inp):
+    """One Measurements object taken through several steps; after every step all observables are queried on
+    that same object and compared with the model / oracle evaluated on the shots it holds at that step."""
+    op = inp["op"]
+    cur = list(inp["shots"])
+    m = Measurements([tup(s) for s in cur])
+    chks, msgs, acts = [], [], []
+    for k, step in enumerate([dict(act="query")] + inp["steps"]):
+        act = step["act"]
+        acts.append(act)
+        if act == "replace":                      # m.bitstrings = <as many different shots>
+            cur = list(step["shots"])
+            m.bitstrings = [tup(s) for s in cur]
+        elif act == "edit":                       # m.bitstrings[i] = <another shot>
+            cur[step["i"]] = step["shot"]
+            m.bitstrings[step["i"]] = tup(step["shot"])
+        elif act == "append":                     # m.bitstrings += <more shots>
+            cur = cur + list(step["shots"])
+            m.bitstrings += [tup(s) for s in step["shots"]]
+        elif act == "add_counts":
+            cur = cur + [kk for kk, c in step["d"] for _ in range(c)]
+            m.add_counts({kk: c for kk, c in step["d"]})
+        held = [key(t) for t in m.bitstrings]
+        if held != cur:
+            msgs.append(f"step {k} ({act}): the object holds {held[:6]}.. instead of {cur[:6]}..")
+        results = [run_distribution(dict(shots=held), m),
+                   run_expval(dict(shots=held, op=op, bessel=False), m),
+                   run_expval(dict(shots=held, op=op, bessel=True), m),
+                   run_counts(dict(shots=held), m)]
+        for name, r in zip(("distribution", "expectation values", "expectation values (Bessel)", "counts"), results):
+            chks.append(r["chk"] if r["chk"] is not None else "true")
+            if not r["oracle_ok"]:
+                msgs.append(f"step {k} (after {act}) {name}: {r['oracle_msg']}")
+        if [key(t) for t in m.bitstrings] != held:
+            msgs.append(f"step {k}: a query modified the stored shots")
+    same = any(a in ("replace", "edit") for a in acts)
+    return dict(chk=" && ".join(f"({c})" for c in chks), oracle_ok=not msgs, oracle_msg="; ".join(msgs[:3]),
+                kind="history" + ("-samecount" if same else "-growing"),
+                nontrivial=len(acts) >= 2 and len(set(inp["shots"])) >= 2 and len(op) >= 1)
+
 def _wide(inp, r):
     if inp.get("wide"):
         r["kind"] = r.get("kind", "case") + "-wide"
     return r
 
-RUN = dict(expval=run_expval, efreq=run_efreq, counts=run_counts, from_counts=run_from_counts,
+RUN = dict(history=run_history, expval=run_expval, efreq=run_efreq, counts=run_counts, from_counts=run_from_counts,
            distribution=run_distribution, parities=run_parities, check_parity=run_check_parity)
 
 def run_case(inp):
